@@ -1105,3 +1105,73 @@ Proof.
   apply Permutation_length. apply NoDup_Permutation; [apply run_keys_nodup | apply flow_keys_nodup|].
   intros k. rewrite <- lookup_in_keys. apply flow_exists_iff; assumption.
 Qed.
+
+(* ================================================================ resets in a history *)
+Lemma typed_from_reset : forall c h seen k, typed_from c seen (h ++ [OpReset k]) = typed_from c seen h.
+Proof.
+  intros c h. induction h as [|o h IH]; intros seen k; [reflexivity|]. cbn [app typed_from].
+  destruct o as [r|k0]; [|apply IH].
+  destruct (typed_shape c (shape r)); [|reflexivity]. cbn [andb].
+  destruct (rec_key r) as [k1|]; [|reflexivity].
+  destruct (lookup_shape seen k1); rewrite IH; reflexivity.
+Qed.
+Lemma typed_history_reset : forall c h k, typed_history c (h ++ [OpReset k]) = typed_history c h.
+Proof. intros. apply typed_from_reset. Qed.
+
+(* a reset of flow k is spec_reset on its abstraction *)
+Theorem reset_refines_history : forall c h k, wf_config c = true -> typed_history c h = true ->
+  absf c (lookup (run c (h ++ [OpReset k])) k) = option_map (spec_reset c) (absf c (lookup (run c h) k)).
+Proof.
+  intros c h k WF TY.
+  assert (TY' : typed_history c (h ++ [OpReset k]) = true) by (rewrite typed_history_reset; exact TY).
+  rewrite (aggregation_refinement c _ k WF TY'), (aggregation_refinement c h k WF TY).
+  rewrite events_of_app. cbn [events_of]. rewrite key_eqb_refl. rewrite spec_flow_snoc.
+  destruct (spec_flow c (events_of c h k)); reflexivity.
+Qed.
+
+Definition no_reset_of (k : key) (h : list op) : bool :=
+  forallb (fun o => match o with OpReset k' => negb (key_eqb k' k) | OpRec _ => true end) h.
+Lemma since_reset_all_recs : forall evs1 evs2, (forall e, In e evs2 -> e <> Reset) ->
+  since_reset (evs1 ++ Reset :: evs2) = evs2.
+Proof.
+  intros evs1 evs2. induction evs2 as [|e evs2 IH] using rev_ind; intros H.
+  - apply since_reset_reset.
+  - assert (H1 : forall e0, In e0 evs2 -> e0 <> Reset) by (intros e0 He; apply H; apply in_or_app; left; exact He).
+    assert (H2 : e <> Reset) by (apply H; apply in_or_app; right; left; reflexivity).
+    change (evs1 ++ Reset :: evs2 ++ [e]) with (evs1 ++ (Reset :: evs2) ++ [e]). rewrite app_assoc.
+    destruct e as [fs fd o|]; [|congruence]. rewrite since_reset_rec, (IH H1). reflexivity.
+Qed.
+Lemma events_no_reset : forall c h k, no_reset_of k h = true -> forall e, In e (events_of c h k) -> e <> Reset.
+Proof.
+  intros c h k. induction h as [|o h IH]; intros H e He; [contradiction|].
+  cbn [no_reset_of forallb] in H. apply andb_prop in H. destruct H as [H1 H2]. cbn [events_of] in He.
+  destruct o as [r|k0].
+  - destruct (rec_key r) as [k'|]; [|exact (IH H2 e He)]. destruct (key_eqb k' k); [|exact (IH H2 e He)].
+    destruct He as [He|He]; [subst; discriminate | exact (IH H2 e He)].
+  - apply negb_true_iff in H1. rewrite H1 in He. exact (IH H2 e He).
+Qed.
+Lemma since_reset_history : forall c h1 h2 k, no_reset_of k h2 = true ->
+  since_reset (events_of c (h1 ++ OpReset k :: h2) k) = events_of c h2 k.
+Proof.
+  intros c h1 h2 k H. rewrite events_of_app. cbn [events_of]. rewrite key_eqb_refl.
+  apply since_reset_all_recs. apply events_no_reset. exact H.
+Qed.
+
+(* how the per-node throughput closed form reads on the node's record list *)
+Lemma node_tp_first : forall n evs o, node_recs n evs = [o] -> node_recs n (since_reset evs) <> [] ->
+  node_tp n evs = [mul8 (o_oct o) / (o_end o - o_start o); mul8 (o_roct o) / (o_end o - o_start o)].
+Proof.
+  intros n evs o H1 H2. unfold node_tp. rewrite H1. destruct (node_recs n (since_reset evs)); [contradiction|].
+  cbn [rev app hd_error]. unfold tp_pair. rewrite !mul8_sub0. reflexivity.
+Qed.
+Lemma node_tp_next : forall n evs l p o, node_recs n evs = l ++ [p; o] -> node_recs n (since_reset evs) <> [] ->
+  node_tp n evs = [mul8 (o_oct o - o_oct p) / (o_end o - o_end p); mul8 (o_roct o - o_roct p) / (o_end o - o_end p)].
+Proof.
+  intros n evs l p o H1 H2. unfold node_tp. rewrite H1. destruct (node_recs n (since_reset evs)); [contradiction|].
+  change (l ++ [p; o]) with (l ++ [p] ++ [o]). rewrite app_assoc, !rev_unit. reflexivity.
+Qed.
+Lemma node_tp_cleared : forall n evs, node_recs n (since_reset evs) = [] -> node_tp n evs = [0; 0].
+Proof. intros n evs H. unfold node_tp. rewrite H. reflexivity. Qed.
+
+(* the record with the latest end time carries the maximum of all end times *)
+Definition ends (evs : list fev) : list N := map (fun x : frec => o_end (snd x)) (recs evs).
